@@ -62,11 +62,22 @@ def alterations(n, family):
     return out
 
 
-def build_reporting(family, start, days, values_fn):
-    """reporting data object whose usage is values_fn(base usage); weather identical in every variant"""
+def build_reporting(family, start, days, values_fn, variant="plain"):
+    """reporting data object whose usage is values_fn(base usage); weather identical in every alteration.
+    variants: plain | weather_gaps (hourly families: NaN runs in temperature and ghi) | six_am_hourly_feed (daily: meter read
+    at 06:00 local, hourly temperature feed, through from_series)"""
     import opendsm.eemeter as em
 
     fam = family
+    if fam == "daily" and variant == "six_am_hourly_feed":
+        idx = (pd.date_range(pd.Timestamp(start) + pd.Timedelta(hours=6), periods=days, freq="D")).tz_localize(ZONE)
+        base = 20.0 + 3.0 * np.sin(np.arange(days) / 5.0) + np.arange(days) % 7
+        v = values_fn(base)
+        hidx = ds.local_hours(start, days + 2, ZONE)
+        temp = ds.hourly_temperature(hidx, "continental", 1)
+        if v is None:
+            return em.DailyReportingData.from_series(None, temp, is_electricity_data=True)
+        return em.DailyReportingData.from_series(pd.Series(v, index=idx, name="observed"), temp, is_electricity_data=True)
     if fam in ("daily", "billing"):
         fr = ds.daily_frame(start=start, days=days, tz=ZONE, wseed=1, seed=11, noise=0.05)
         if fam == "daily":
@@ -88,6 +99,12 @@ def build_reporting(family, start, days, values_fn):
         return em.BillingReportingData.from_series(meter, t, is_electricity_data=True)
     solar = fam == "hourly_solar"
     fr = ds.hourly_frame(start=start, days=days, tz=ZONE, wseed=1, seed=11, solar=solar)
+    if variant == "weather_gaps":
+        n = len(fr)
+        for col, starts, length in (("temperature", (n // 5, n // 2), 5), ("ghi", (n // 4, n // 2 + 3, 3 * n // 4), 4)):
+            if col in fr.columns:
+                for a in starts:
+                    fr.iloc[a:a + length, fr.columns.get_loc(col)] = np.nan
     v = values_fn(fr["observed"].to_numpy())
     if v is None:
         fr = fr.drop(columns=["observed"])
@@ -120,6 +137,8 @@ def n_values(family, days):
 
 def run_case(case):
     family, (sname, start, days) = case["family"], next(s for s in SETS if s[0] == case["set"])
+    variant = case.get("variant", "plain")
+    sname = sname if variant == "plain" else f"{sname}/{variant}"
     model = fitted(family)
     viol = []
     key0 = {"family": family}
@@ -137,7 +156,7 @@ def run_case(case):
     rejected_alts = []
     for name, fn in alts:
         try:
-            data = build_reporting(family, start, days, fn)
+            data = build_reporting(family, start, days, fn, variant)
         except Exception as exc:
             if name == "identity":
                 return {"rejected": f"identity data object cannot be built: {type(exc).__name__}"}
@@ -194,6 +213,10 @@ def cases(tier):
             if tier == "quick" and f == "caltrack" and sname == "year":
                 continue
             out.append({"family": f, "set": sname})
+            if f in ("hourly", "hourly_solar") and sname != "year":
+                out.append({"family": f, "set": sname, "variant": "weather_gaps"})
+            if f == "daily" and sname != "year":
+                out.append({"family": f, "set": sname, "variant": "six_am_hourly_feed"})
     # longest first so the pool is busy
     return out
 
